@@ -660,6 +660,26 @@ func lsmApply(x *seqExec, op string) bool {
 			return true
 		}
 		x.db = ndb
+		if !st.opts.managedTxns {
+			// The newest commit timestamps may have been held only by versions that are legitimately
+			// gone (keys of a dropped prefix; a delete marker compacted away together with everything
+			// below it): the re-opened database then continues from a smaller timestamp.  Nothing is
+			// readable at the lost timestamps, so the model forgets the fully deleted keys and reads
+			// "latest" from here on.
+			if newMax := ndb.orc.nextTs() - 1; newMax < st.maxTs() {
+				dead := map[string]bool{}
+				for _, w := range st.writes {
+					dead[w.Key] = st.modelRead(w.Key, ^uint64(0)).Val == "<nil>"
+				}
+				var kept []mwrite
+				for _, w := range st.writes {
+					if !dead[w.Key] {
+						kept = append(kept, w)
+					}
+				}
+				st.writes = kept
+			}
+		}
 		if st.discard > 0 && st.opts.managedTxns {
 			ndb.SetDiscardTs(st.discard)
 		}
